@@ -22,9 +22,19 @@
 //	     cred = kind,f1,f2,f3,qu,qp   kind absent|other|basic|bearer; basic: f1 user f2 password;
 //	     bearer: f1 signature ok 0|1, f2 exp ("n" absent, 0 = literal zero, else seconds from now),
 //	     f3 username claim ("!none" absent); qu,qp = URL parameters u and p.
+//	httpraw <flags> <method> <raw request target> <cred> <db> => <what net/http made of it> <status> <served> <wrote>
+//	     the request is written as bytes ("METHOD target?query HTTP/1.1 …") and parsed by http.ReadRequest, the
+//	     parser the server runs on the wire: percent-escapes (%2F, %2e%2e, %ff …), raw high bytes, broken escapes.
+//	     First observation: the URL path the handler receives (r.URL.Path, escaped) or "badurl" when net/http
+//	     refuses the request line (the server then answers 400 itself; no handler runs: printed as "badurl 400 0 0").
+//	addroute <preview 0|1> <pattern> => ok|err      Handler.AddRoute / AddPreviewRoute on a fresh handler (method DELETE)
+//
+// Strings are BYTE strings: any token may unescape to bytes that are not valid UTF-8.
 package c20
 
 import (
+	"bufio"
+	"bytes"
 	"errors"
 	"expvar"
 	"fmt"
@@ -198,11 +208,23 @@ func doHTTP(s *server, method, urlPath, cred, db string) (obs string) {
 	req.URL.Path = urlPath
 	req.URL.RawPath = ""
 	req.URL.RawQuery = q.Encode()
+	if hv, ok := authHeader(f); !ok {
+		return "badtoken"
+	} else if hv != "" {
+		req.Header.Set("Authorization", hv)
+	}
+	return serveAndObserve(s, req, method, urlPath)
+}
+
+// authHeader builds the Authorization header value a credential token describes ("" = none).
+func authHeader(f []string) (string, bool) {
 	switch f[0] {
 	case "basic":
-		req.SetBasicAuth(un(f[1]), un(f[2]))
+		tmp, _ := http.NewRequest("GET", "http://localhost/", nil)
+		tmp.SetBasicAuth(un(f[1]), un(f[2]))
+		return tmp.Header.Get("Authorization"), true
 	case "other":
-		req.Header.Set("Authorization", "Digest abc")
+		return "Digest abc", true
 	case "bearer":
 		claims := jwt.MapClaims{}
 		switch f[2] {
@@ -222,10 +244,59 @@ func doHTTP(s *server, method, urlPath, cred, db string) (obs string) {
 		}
 		tok, err := jwt.NewWithClaims(jwt.SigningMethodHS256, claims).SignedString([]byte(key))
 		if err != nil {
-			return "badtoken"
+			return "", false
 		}
-		req.Header.Set("Authorization", "Bearer "+tok)
+		return "Bearer " + tok, true
 	}
+	return "", true
+}
+
+// doHTTPRaw sends the request as the bytes of an HTTP/1.1 message through http.ReadRequest (the server's own
+// parser): whatever decoding happens before the handler chain is net/http's, not the harness's.
+func doHTTPRaw(s *server, method, rawTarget, cred, db string) (obs string) {
+	defer func() {
+		if r := recover(); r != nil {
+			obs = "panic"
+		}
+	}()
+	f := strings.Split(cred, ",")
+	for len(f) < 6 {
+		f = append(f, "%")
+	}
+	q := url.Values{}
+	if db != "" {
+		q.Set("db", db)
+	}
+	if u := un(f[4]); u != "" {
+		q.Set("u", u)
+	}
+	if p := un(f[5]); p != "" {
+		q.Set("p", p)
+	}
+	target := rawTarget
+	if enc := q.Encode(); enc != "" {
+		target += "?" + enc
+	}
+	body := "m v=1 1\n"
+	var b bytes.Buffer
+	fmt.Fprintf(&b, "%s %s HTTP/1.1\r\nHost: localhost\r\nContent-Length: %d\r\n", method, target, len(body))
+	hv, ok := authHeader(f)
+	if !ok {
+		return "badtoken"
+	}
+	if hv != "" {
+		fmt.Fprintf(&b, "Authorization: %s\r\n", hv)
+	}
+	b.WriteString("\r\n" + body)
+	req, err := http.ReadRequest(bufio.NewReader(&b))
+	if err != nil {
+		return "badurl 400 0 0"
+	}
+	req.RemoteAddr = "192.0.2.1:1234"
+	return kit.Esc(req.URL.Path) + " " + serveAndObserve(s, req, method, req.URL.Path)
+}
+
+func serveAndObserve(s *server, req *http.Request, method, urlPath string) string {
 	served0, wrote0 := s.served, s.pw.calls
 	ping0 := statInt(s.stats, "ping_req")
 	w := httptest.NewRecorder()
@@ -341,6 +412,30 @@ func execCase(ops []string) (out []string) {
 					servers[t[1]] = s
 				}
 				return doHTTP(s, un(t[2]), un(t[3]), t[4], un(t[5]))
+			})
+		case t[0] == "httpraw" && len(t) == 6:
+			guard(line, func() string {
+				s, ok := servers[t[1]]
+				if !ok {
+					s = newServer(t[1] == "1" || t[1] == "3", t[1] == "2" || t[1] == "3", fa)
+					servers[t[1]] = s
+				}
+				return doHTTPRaw(s, un(t[2]), un(t[3]), t[4], un(t[5]))
+			})
+		case t[0] == "addroute" && len(t) == 3:
+			guard(line, func() string {
+				h := httpd.NewHandler(true, false, false, false, false, new(expvar.Map).Init(), kit.Diag().NewHTTPDHandler(), secret)
+				r := httpd.Route{Method: "DELETE", Pattern: un(t[2]), HandlerFunc: func(w http.ResponseWriter, r *http.Request) {}}
+				var err error
+				if t[1] == "1" {
+					err = h.AddPreviewRoute(r)
+				} else {
+					err = h.AddRoute(r)
+				}
+				if err != nil {
+					return "err"
+				}
+				return "ok"
 			})
 		default:
 			out = append(out, line+" => badline")
